@@ -46,10 +46,12 @@ pub struct TmplGen<'a> {
 }
 
 const TAGS: [&str; 5] = ["v", "view", "text", "my-comp", "x-y"];
-const STATIC_TEXTS: [&str; 16] = [
+const STATIC_TEXTS: [&str; 18] = [
     "hello", "a b", " lead", "trail ", "x&lt;y", "&amp;amp;", "&#65;&#x42;", "q&quot;q", "&nbsp;", "汉\u{1f600}", "l1\nl2", "}{ ) (",
     // braces that only exist after entity decoding: a `{` right before a binding, a literal `{{x}}`, a lone `{`
     "a&#123;", "&#123;&#123;x}}", "{ x }", "&#123;&#123;&#123;y}}}",
+    // one-digit and padded numeric references, hex in both cases
+    "t&#9;t&#09;&#x9;", "&#x4a;&#X4B;&#7;",
 ];
 const ATTR_NAMES: [&str; 5] = ["a", "hidden", "my-prop", "value", "src"];
 const EVENTS: [&str; 3] = ["tap", "touch-start", "custom_ev"];
@@ -147,7 +149,7 @@ impl<'a> TmplGen<'a> {
                 format!("{}{}{}{}", a, self.binding(), b, if self.rng.chance(1, 3) { self.binding() } else { String::new() })
             }
             3 => "".to_string(),
-            _ => self.rng.pick(&["s", "a b", "x&amp;y", "&#39;", "it&quot;s", "汉"]).to_string(),
+            _ => self.rng.pick(&["s", "a b", "x&amp;y", "&#39;", "it&quot;s", "汉", "c1&#9;c2", "&#8;&#x1f;z"]).to_string(),
         }
     }
 
